@@ -70,15 +70,17 @@ Fixpoint recv_loop (t : ttype) (prev_cr : bool) (s : sink) (segs : list bytes) (
         end
   end.
 
+(* "if (transfer_cb) { if (transfer_cb->is_cancelled()) return; transfer_cb->begin(); }" *)
+Definition start_events (cb : callback) : list io_event * bool * callback :=
+  match cb with
+  | None => ([], false, None)
+  | Some answers => let '(a, answers') := poll answers in ([IoPoll a] ++ (if a then [] else [IoBegin]), a, Some answers')
+  end.
+
 (* data_connection::recv(stream, transfer_cb) with stream = create_output_stream(dst) *)
 Definition data_recv (t : ttype) (s : sink) (segs : list bytes) (e : dend) (cb : callback)
   : list io_event * pump_result * callback :=
-  let start := match cb with
-               | None => ([], false, None)
-               | Some answers => let '(a, answers') := poll answers in
-                                 ([IoPoll a] ++ (if a then [] else [IoBegin]), a, Some answers')
-               end in
-  let '(ev0, cancelled, cb1) := start in
+  let '(ev0, cancelled, cb1) := start_events cb in
   if cancelled then (ev0, PCancelledBeforeStart, cb1)
   else
     let '(ev, r, p, s', cb2) := recv_loop t false s segs e cb1 in
@@ -130,12 +132,7 @@ Fixpoint send_loop (blocks : list bytes) (cb : callback) : list io_event * pump_
 
 Definition data_send (t : ttype) (blk : nat) (chunks : list bytes) (cb : callback)
   : list io_event * pump_result * callback :=
-  let start := match cb with
-               | None => ([], false, None)
-               | Some answers => let '(a, answers') := poll answers in
-                                 ([IoPoll a] ++ (if a then [] else [IoBegin]), a, Some answers')
-               end in
-  let '(ev0, cancelled, cb1) := start in
+  let '(ev0, cancelled, cb1) := start_events cb in
   if cancelled then (ev0, PCancelledBeforeStart, cb1)
   else
     let '(ev, r, cb2) := send_loop (upload_blocks t blk chunks) cb1 in
